@@ -1013,7 +1013,7 @@ def _ev_fp(t, env, memo):
     if o.startswith("fr:"):
         # fixed-rounding form  fr:<mode>:<op>
         _, rm, o = o.split(":", 2)
-    if w not in (32, 64) and o not in ("fptosi", "fptoui", "x86.cvt"):
+    if w not in (32, 64, 80) and o not in ("fptosi", "fptoui", "x86.cvt"):
         raise Uneval("float width %d" % w)
     if env.get("daz") and o in ("fadd", "fsub", "fmul", "fdiv"):
         x_, y_ = daz_flush(ev(t[2], env, memo), w), daz_flush(ev(t[3], env, memo), w)
